@@ -144,7 +144,7 @@ def alloc_replay(ctx):
     c = {"Policies": '{"stack", "reusable", "mtsafe"}', "ExPolicies": "{}", "MaxCreate": 4, "MaxOverlap": 2,
          "Grain": '"call"', "Fixed": "TRUE" if fixed else "FALSE", "StackInits": "{0}", "BufferInits": "{0}",
          "PlaceInits": "{300}", "MaxMoves": 0, "MaxOwner": 0, "MaxPrep": 2, "MaxThrows": 0, "ThrowFixed": "TRUE",
-         "AreaOffs": "{0}", "MaxDtor": 0}
+         "AreaOffs": "{0}", "MaxDtor": 0, "MaxFail": 0}
     # the shape family follows the scenario number: the random walks on top of the edge cover put every short
     # history under several families
     run_cfg(ctx, rp, "stor_alloc", "Storage_seq.cfg", c, "seq", ["Create", "Complete", "Teardown"], obs="alloc",
@@ -190,12 +190,12 @@ def run(ctx):
     c = {"Policies": ALL, "ExPolicies": ALL, "MaxCreate": 4 if ctx.quick else 5, "MaxCreateEx": 3 if ctx.quick else 4,
          "MaxOverlap": 3, "Grain": '"call"', "Fixed": FX, "MaxMoves": 2 if ctx.quick else 3, "MaxOwner": 2 if ctx.quick else 3,
          "MaxPrep": 2, "MaxThrows": 1 if throw_ok else 0, "ThrowFixed": "TRUE", "MaxDtor": 1 if ctx.quick else 2,
-         "MaxDtorMoves": 0 if ctx.quick else 1}
+         "MaxDtorMoves": 0 if ctx.quick else 1, "MaxFail": 1}
     c.update(inits)
     run_cfg(ctx, rp, "seq", "Storage_seq.cfg", c, "seq",
             ["Create", "CreateB", "Complete", "Teardown", "NewObj", "MoveCtor", "MoveAssign", "Drop",
              "OwnerResize", "OwnerShrink", "OwnerClear", "OwnerMoveOut", "OwnerSwap", "Prepare", "CreateP",
-             "DtorBegin", "DtorEnd"]
+             "DtorBegin", "DtorEnd", "CreateFail"]
             + (["CreateThrow"] if throw_ok else []))
     sdir = os.path.join(vlib.VERIF, "spec", SPEC)
     seqbase = open(os.path.join(sdir, "Storage_seq.cfg")).read()
@@ -229,7 +229,8 @@ def run(ctx):
             txt = re.sub(r"^INVARIANTS.*$", "INVARIANTS " + invariant, seqbase, flags=re.M)
             txt = re.sub(r"^PROPERTIES.*$", "", txt, flags=re.M)
             vlib.write_cfg(demo, txt, {"ThrowFixed": "FALSE", "Fixed": FX, "Policies": '{"%s"}' % pol,
-                                       "ExPolicies": '{"%s"}' % pol, "MaxMoves": 0, "NSlots": NSLOTS, "MaxDtor": 0})
+                                       "ExPolicies": '{"%s"}' % pol, "MaxMoves": 0, "NSlots": NSLOTS, "MaxDtor": 0,
+                                       "MaxFail": 0})
             res = ctx.tlc(SPEC, SPEC, demo, "throw_cex_" + pol, workers=1)
             if not res.violation:
                 raise vlib.MachineryError("block-kept model expected to violate %s" % invariant)
@@ -256,7 +257,7 @@ def run(ctx):
     if not ctx.quick:
         # longer create/complete sequences of the plain policies (no layer, no moves, no owner actions)
         c = {"Policies": ALL, "ExPolicies": "{}", "MaxCreate": 6, "MaxCreateEx": 0, "MaxOverlap": 3, "Grain": '"call"',
-             "Fixed": FX, "MaxMoves": 0, "MaxOwner": 0, "MaxPrep": 0, "MaxThrows": 0, "ThrowFixed": "TRUE", "MaxDtor": 0}
+             "Fixed": FX, "MaxMoves": 0, "MaxOwner": 0, "MaxPrep": 0, "MaxThrows": 0, "ThrowFixed": "TRUE", "MaxDtor": 0, "MaxFail": 0}
         c.update(inits)
         run_cfg(ctx, rp, "seq_deep", "Storage_seq.cfg", c, "seq", ["Create", "Complete", "Teardown"])
 
@@ -345,10 +346,15 @@ def run(ctx):
                "the alloca block they ask for; up to 2, at most one frame before the first preparation, at most 3 frames "
                "in such a history) and used later, repeatedly once their block is free again; concurrent preparation "
                "from two threads (scheduler::start on one scheduler) is not exercised")
+    ctx.assume("error path: operator new itself throws std::bad_alloc inside the policy's alloc, once per history (at most one "
+               "frame before it, at most 2 in such a history; plain bodies): default_storage, the growth of reusable_storage, "
+               "the heap fallback of reusable_storage_mtsafe (while another frame holds its block) and of stack_storage, the "
+               "reallocation of the buffer's vector -- nothing may change; NOT exercised: reusable_storage_mtsafe growing "
+               "while not busy (at the pinned tree the exchange has set _busy and nothing clears it: the storage would "
+               "stay on the heap path for ever)")
     ctx.assume("error path: the factory of the attached object throws during one creation per history (at most one frame "
                "before it, at most 2 in such a history; plain with_allocator coroutines only -- callback_await_coro is "
-               "noexcept, a throwing allocation there terminates the process by design); other exceptions (operator new "
-               "failing, vector::resize failing) are not injected")
+               "noexcept, a throwing allocation there terminates the process by design); operator new failing: see above")
     ctx.assume("destructor of the attached object (code of the user inside promise_extra_storage::dealloc): one completion per "
                "history (thorough: two, not nested) in which ~T creates and completes coroutines -- on the same storage where the "
                "base policy permits a second live frame (default, mtsafe, stack), on a second storage object (reusable; thorough tier) -- "
